@@ -21,6 +21,17 @@ import (
 // A `true` answer that is still possible is decided by an occurrence in the middle of the name:
 // `db.corp.example.attacker.test` would match `*.corp.example`.
 func (cx *c19Ctx) unanchoredAtom(m *ssa.Function, cls map[*ssa.Parameter]string, depth int, busy map[*ssa.Function]bool) kit.AtomEval {
+	return cx.roleAtom("unanchored", m, cls, depth, busy)
+}
+
+// roleAtom builds the assignment for mode over function m, whose parameters play the roles cls.
+//
+//	"unanchored": see unanchoredAtom.
+//	"label":      the name ends with the pattern's base, the character in front of the base is NOT a
+//	              dot, and what is in front of the base is a non-empty string without any dot
+//	              (evilcorp.example against *.corp.example). A true answer under this assignment
+//	              accepts a different registrable domain: the label boundary is lost.
+func (cx *c19Ctx) roleAtom(mode string, m *ssa.Function, cls map[*ssa.Parameter]string, depth int, busy map[*ssa.Function]bool) kit.AtomEval {
 	// parameter roles: in the predicate itself every string parameter is the requested name; in a
 	// helper the roles come from the arguments at the call being evaluated
 	if cls == nil {
@@ -99,7 +110,7 @@ func (cx *c19Ctx) unanchoredAtom(m *ssa.Function, cls map[*ssa.Parameter]string,
 			}
 		}
 		busy[h] = true
-		res := c19EvalBoolFunc(h, cx.unanchoredAtom(h, hc, depth+1, busy))
+		res := c19EvalBoolFunc(h, cx.roleAtom(mode, h, hc, depth+1, busy))
 		delete(busy, h)
 		switch res {
 		case kit.TriTrue:
@@ -122,6 +133,9 @@ func (cx *c19Ctx) unanchoredAtom(m *ssa.Function, cls map[*ssa.Parameter]string,
 	}
 	search := func(c *ssa.Call) bool { // unanchored search of a pattern-derived needle in the name
 		return c != nil && len(c.Call.Args) >= 2 && fromName(c.Call.Args[0]) && fromPattern(c.Call.Args[1])
+	}
+	if mode == "label" {
+		return cx.labelAtom(helper, fromName, fromPattern)
 	}
 	return func(cond ssa.Value) (bool, bool) {
 		if v, ok := helper(cond); ok {
@@ -380,4 +394,175 @@ func (cx *c19Ctx) ruleIdentity() {
 		})
 	}
 	r.Count("r4_network_identity_comparisons", n)
+}
+
+// labelAtom: see roleAtom, mode "label".
+func (cx *c19Ctx) labelAtom(helper func(ssa.Value) (bool, bool), fromName, fromPattern func(ssa.Value) bool) kit.AtomEval {
+	// needle = "." + pattern-derived: carries the label separator in front of the base
+	dotPrefixed := func(v ssa.Value) bool {
+		for x := range kit.FlowSet(v, nil) {
+			b, ok := x.(*ssa.BinOp)
+			if !ok || b.Op != token.ADD || !kit.IsStringType(b.Type()) {
+				continue
+			}
+			if s, isc := kit.ConstString(b.X); isc && strings.HasSuffix(s, ".") && fromPattern(b.Y) {
+				return true
+			}
+		}
+		return false
+	}
+	// a value that is (computed from) the part of the name in front of the base
+	var isPrefix func(v ssa.Value) bool
+	isPrefix = func(v ssa.Value) bool {
+		for x := range kit.FlowSet(v, nil) {
+			switch t := x.(type) {
+			case *ssa.Slice:
+				if kit.IsStringType(t.X.Type()) && fromName(t.X) && t.High != nil && t.Low == nil {
+					for y := range kit.FlowSet(t.High, nil) {
+						if c, ok := y.(*ssa.Call); ok && kit.CalleeOf(c).Built == "len" && len(c.Call.Args) == 1 && fromPattern(c.Call.Args[0]) {
+							return true
+						}
+					}
+				}
+			case *ssa.Extract:
+				if name, c := c19StringsCall(t.Tuple); c != nil && name == "CutSuffix" && t.Index == 0 && len(c.Call.Args) == 2 && fromName(c.Call.Args[0]) && fromPattern(c.Call.Args[1]) {
+					return true
+				}
+			case *ssa.Call:
+				if name, c := c19StringsCall(t); c != nil && name == "TrimSuffix" && len(c.Call.Args) == 2 && fromName(c.Call.Args[0]) && fromPattern(c.Call.Args[1]) {
+					return true
+				}
+			}
+		}
+		return false
+	}
+	endsWith := func(hay, needle ssa.Value) (bool, bool) { // does hay end with needle under the assumption
+		switch {
+		case fromName(hay) && !isPrefix(hay) && fromPattern(needle):
+			return !dotPrefixed(needle), true
+		case isPrefix(hay) && c19IsDot(needle):
+			return false, true
+		}
+		return false, false
+	}
+	cmpAt := func(op token.Token, val, k int64) bool {
+		ord := 0
+		if val < k {
+			ord = -1
+		} else if val > k {
+			ord = 1
+		}
+		return cmpHolds(op, ord)
+	}
+	return func(cond ssa.Value) (bool, bool) {
+		if v, ok := helper(cond); ok {
+			return v, true
+		}
+		switch x := cond.(type) {
+		case *ssa.BinOp:
+			if (x.Op == token.EQL || x.Op == token.NEQ) && kit.IsStringType(x.X.Type()) {
+				for _, side := range [][2]ssa.Value{{x.X, x.Y}, {x.Y, x.X}} {
+					if name, c := c19StringsCall(side[0]); c != nil && name == "TrimSuffix" && len(c.Call.Args) == 2 && c.Call.Args[0] == side[1] {
+						if ends, ok := endsWith(c.Call.Args[0], c.Call.Args[1]); ok {
+							return (x.Op == token.EQL) == !ends, true // unchanged iff it does not end with it
+						}
+					}
+				}
+				return x.Op == token.NEQ, true // the name is longer than the base; the prefix is non-empty
+			}
+			// the character in front of the base is not the separator
+			if x.Op == token.EQL || x.Op == token.NEQ {
+				for _, side := range [][2]ssa.Value{{x.X, x.Y}, {x.Y, x.X}} {
+					var str ssa.Value
+					switch e := side[0].(type) {
+					case *ssa.Lookup:
+						str = e.X
+					case *ssa.Index:
+						str = e.X
+					}
+					if str != nil && kit.IsStringType(str.Type()) && fromName(str) {
+						if k, isc := kit.ConstInt(side[1]); isc && k == '.' {
+							return x.Op == token.NEQ, true
+						}
+					}
+				}
+			}
+			for _, side := range []struct {
+				v, other ssa.Value
+				flip     bool
+			}{{x.X, x.Y, false}, {x.Y, x.X, true}} {
+				k, isc := kit.ConstInt(side.other)
+				if !isc {
+					continue
+				}
+				op := x.Op
+				if side.flip {
+					op = flipCmp(op)
+				}
+				switch op {
+				case token.EQL, token.NEQ, token.LSS, token.LEQ, token.GTR, token.GEQ:
+				default:
+					continue
+				}
+				// len(prefix): some positive length
+				if c, ok := side.v.(*ssa.Call); ok && kit.CalleeOf(c).Built == "len" && len(c.Call.Args) == 1 && isPrefix(c.Call.Args[0]) {
+					if cmpAt(op, 1, k) == cmpAt(op, 4, k) {
+						return cmpAt(op, 1, k), true
+					}
+				}
+				name, c := c19StringsCall(side.v)
+				if c == nil || len(c.Call.Args) < 2 {
+					continue
+				}
+				notFound := (fromName(c.Call.Args[0]) && !isPrefix(c.Call.Args[0]) && fromPattern(c.Call.Args[1]) && dotPrefixed(c.Call.Args[1])) ||
+					(isPrefix(c.Call.Args[0]) && c19IsDot(c.Call.Args[1]))
+				if !notFound {
+					continue
+				}
+				switch {
+				case name == "Count":
+					return cmpAt(op, 0, k), true
+				case strings.HasPrefix(name, "Index") || strings.HasPrefix(name, "LastIndex"):
+					return cmpAt(op, -1, k), true
+				}
+			}
+		case *ssa.Call:
+			name, c := c19StringsCall(x)
+			if c == nil || !c19IsBool(c.Type()) || len(c.Call.Args) < 2 {
+				return false, false
+			}
+			hay, needle := c.Call.Args[0], c.Call.Args[1]
+			switch name {
+			case "HasSuffix":
+				return endsWith(hay, needle)
+			case "EqualFold":
+				return false, true
+			case "Contains", "ContainsRune", "ContainsAny":
+				if isPrefix(hay) && c19IsDot(needle) {
+					return false, true
+				}
+				if fromName(hay) && !isPrefix(hay) && fromPattern(needle) && dotPrefixed(needle) {
+					return false, true
+				}
+			}
+		case *ssa.Extract:
+			name, c := c19StringsCall(x.Tuple)
+			if c == nil || !c19IsBool(x.Type()) || len(c.Call.Args) < 2 {
+				return false, false
+			}
+			hay, needle := c.Call.Args[0], c.Call.Args[1]
+			switch name {
+			case "CutSuffix":
+				return endsWith(hay, needle)
+			case "Cut":
+				if fromName(hay) && !isPrefix(hay) && fromPattern(needle) && dotPrefixed(needle) {
+					return false, true
+				}
+				if isPrefix(hay) && c19IsDot(needle) {
+					return false, true
+				}
+			}
+		}
+		return false, false
+	}
 }
